@@ -104,3 +104,38 @@ Proof.
   split; apply CoverC_from_shape; unfold CoverC; cbn [Rounds.rows cstart cend]; do 2 eexists; (split; [reflexivity|]);
     rewrite !HQ, H0, H1; (split; [apply Restr_initial; rewrite map_length; assumption|assumption]).
 Qed.
+
+(* ---------------- the Tangent branch is NOT complete (finding F2 as a theorem about the model) ----------------
+   A covering pair that is classified Tangent is handed to tangent_bbox_intersection, which compares END points only, and
+   produces no candidates for the next round.  Witness: curve 1 is the folded vertical segment (1,0), (1,2), (1,1) (every
+   control point on the line x = 1), curve 2 = (1,5/4), (2,2), (3,5/4) starts on that line.  They meet at B1(1/2) = B2(0) =
+   (1, 5/4) - an interior parameter of curve 1 - the boxes touch along x = 1, and the pair yields no further candidates. *)
+Definition f2_x1 : list Q := [1; 1; 1]%Q.   Definition f2_y1 : list Q := [0; 2; 1]%Q.
+Definition f2_x2 : list Q := [1; 2; 3]%Q.   Definition f2_y2 : list Q := [5 # 4; 2; 5 # 4]%Q.
+Lemma f2_common_point :
+  B (map Q2R f2_x1) (/ 2) = B (map Q2R f2_x2) 0 /\ B (map Q2R f2_y1) (/ 2) = B (map Q2R f2_y2) 0.
+Proof.
+  unfold B, bernstein, f2_x1, f2_y1, f2_x2, f2_y2. cbn [map List.length Nat.sub bsum choose Nat.add ofn pw].
+  cbn [oadd omul osub o0 o1 ROps]. unfold Q2R. cbn [Qnum Qden]. split; field.
+Qed.
+Theorem tangent_branch_loses_a_common_point :
+  exists f s, initial f2_x1 f2_y1 f2_x2 f2_y2 = [(f, s)] /\
+    Rounds.lin f = false /\ Rounds.lin s = false /\
+    CoverC (map Q2R f2_x1) (map Q2R f2_y1) f (/ 2) /\ CoverC (map Q2R f2_x2) (map Q2R f2_y2) s 0 /\
+    classify f s = Tangent /\ fst (step_pair (f, s)) = [] /\
+    snd (step_pair (f, s)) = [EvTangent f s] /\
+    B (map Q2R f2_x1) (/ 2) = B (map Q2R f2_x2) 0 /\ B (map Q2R f2_y1) (/ 2) = B (map Q2R f2_y2) 0.
+Proof.
+  pose proof (initial_covers f2_x1 f2_y1 f2_x2 f2_y2 (/ 2) 0) as Hc.
+  destruct (initial f2_x1 f2_y1 f2_x2 f2_y2) as [|[f s] rest] eqn:E; [vm_compute in E; discriminate|].
+  destruct rest; [|vm_compute in E; discriminate].
+  exists f, s. split; [reflexivity|].
+  assert (Hcov := Hc ltac:(cbn; lia) ltac:(cbn; lia) ltac:(cbn; lia) ltac:(cbn; lia) ltac:(lra) ltac:(lra)).
+  destruct Hcov as [C1 C2].
+  assert (Ef : f = fst (hd (f, s) (initial f2_x1 f2_y1 f2_x2 f2_y2))) by (rewrite E; reflexivity).
+  assert (Es : s = snd (hd (f, s) (initial f2_x1 f2_y1 f2_x2 f2_y2))) by (rewrite E; reflexivity).
+  assert (Hf : Rounds.lin f = false /\ Rounds.lin s = false /\ classify f s = Tangent /\
+               fst (step_pair (f, s)) = [] /\ snd (step_pair (f, s)) = [EvTangent f s]).
+  { injection E as E1 E2. subst f s. vm_compute. repeat split; reflexivity. }
+  destruct Hf as (A & B0 & C & D & F). destruct f2_common_point as [P1 P2]. repeat split; assumption.
+Qed.
